@@ -1096,6 +1096,44 @@ pub fn generate(seed: u64, thorough: bool, emit: &mut dyn FnMut(String)) {
             }
         }
     }
+    // 1b. nested-vector constructors on EVERY tuple of row lengths 0..4 for 1..4 rows (625 + … tuples): ragged rows
+    //     must be refused whatever their lengths add up to (e.g. lengths 3,2,4 hold as many items as a 3x3 grid)
+    for nrows in 1..=4usize {
+        let mut lens = vec![0usize; nrows];
+        loop {
+            let mut k = 1i64;
+            let rows: Vec<Vec<i64>> = lens
+                .iter()
+                .map(|l| {
+                    (0..*l)
+                        .map(|_| {
+                            k += 1;
+                            k
+                        })
+                        .collect()
+                })
+                .collect();
+            let tail = [Op::TransposeMut, Op::Reshape(lens[0].max(1))];
+            emit(request(&Ctor::Nested(rows.clone()), &tail));
+            emit(request(&Ctor::NestedRef(0, rows.clone()), &tail));
+            if nrows <= 3 {
+                emit(request(&Ctor::NestedRef(1, rows), &tail));
+            }
+            // next tuple
+            let mut i = 0;
+            while i < nrows {
+                lens[i] += 1;
+                if lens[i] <= 4 {
+                    break;
+                }
+                lens[i] = 0;
+                i += 1;
+            }
+            if i == nrows {
+                break;
+            }
+        }
+    }
     emit(request(&Ctor::New, &[Op::Transpose, Op::Reshape(1), Op::Reshape(0), Op::Swap(0, 0), Op::Set(0, 0, 1)]));
     for n in 0..=5usize {
         emit(request(&Ctor::Ident(n), &[Op::Transpose, Op::Swap(0, n.saturating_sub(1)), Op::Reshape(1)]));
